@@ -297,8 +297,8 @@ package geom
 //@ -- ------------------------------------------------------------ C15: Similar
 //@ pred close(a float64, b float64, e float64) = abs(a - b) < e
 //@ pred ptClose(p Point, q Point, e float64) = close(p.X, q.X, e) && close(p.Y, q.Y, e)
-//@ pred ptsClose(a []Point, b []Point, e float64) = len(a) == len(b) && (forall k int :: 0 <= k && k < len(a) ==> ptClose(a[k], b[k], e))
-//@ pred ptssClose(a [][]Point, b [][]Point, e float64) = len(a) == len(b) && (forall k int :: 0 <= k && k < len(a) ==> ptsClose(a[k], b[k], e))
+//@ opaque pred ptsClose(a []Point, b []Point, e float64) = len(a) == len(b) && (forall k int :: 0 <= k && k < len(a) ==> ptClose(a[k], b[k], e))
+//@ opaque pred ptssClose(a [][]Point, b [][]Point, e float64) = len(a) == len(b) && (forall k int :: 0 <= k && k < len(a) ==> ptsClose(a[k], b[k], e))
 
 //@ func similar
 //@   prop C15
@@ -379,3 +379,82 @@ package geom
 //@   loop 1 `for i := 0; i < len(a); i++`
 //@     invariant [idx] 0 <= i && i <= len(a) && len(a) == len(b) && 0 <= ia && 0 <= ib && (len(a) >= 1 ==> ia < len(a) && ib < len(b))
 //@     decreases len(a) - i
+
+//@ func (ml MultiLineString) Similar
+//@   prop C15
+//@   mode real
+//@   ensures [type_mismatch] typeof(g) != MultiLineString ==> !result
+//@   ensures [count] result ==> len(ml) == len(g.(MultiLineString))
+//@   ensures [all_matched] result ==> (forall a int :: 0 <= a && a < len(ml) ==> (exists b int :: 0 <= b && b < len(g.(MultiLineString)) && ptsClose(ml[a], g.(MultiLineString)[b], tolerance)))
+//@   modifies nothing
+//@   loop 1 `for i := range ml2`
+//@     invariant [fill] 0 <= #1 && #1 <= len(ml2) && len(indices) == len(ml2) && fresh(indices) && (forall k int :: 0 <= k && k < #1 ==> indices[k] == k)
+//@   loop 2 `for _, l := range ml`
+//@     invariant [idx] 0 <= #2 && #2 <= len(ml) && fresh(indices) && len(indices) + #2 == len(ml2) && (forall k int :: 0 <= k && k < len(indices) ==> 0 <= indices[k] && indices[k] < len(ml2))
+//@     invariant [matched] forall a int :: 0 <= a && a < #2 ==> (exists b int :: 0 <= b && b < len(ml2) && ptsClose(ml[a], ml2[b], tolerance))
+//@   loop 3 `for ii, i := range indices`
+//@     invariant [scan] 0 <= #3 && #3 <= len(indices) && (forall k int :: 0 <= k && k < len(indices) ==> 0 <= indices[k] && indices[k] < len(ml2))
+
+//@ func (mp MultiPolygon) Similar
+//@   prop C15
+//@   mode real
+//@   ensures [type_mismatch] typeof(g) != MultiPolygon ==> !result
+//@   ensures [count] result ==> len(mp) == len(g.(MultiPolygon))
+//@   modifies nothing
+//@   loop 1 `for i := range mp2`
+//@     invariant [fill] 0 <= #1 && #1 <= len(mp2) && len(indices) == len(mp2) && fresh(indices) && (forall k int :: 0 <= k && k < #1 ==> indices[k] == k)
+//@   loop 2 `for _, x := range mp`
+//@     invariant [idx] 0 <= #2 && #2 <= len(mp) && fresh(indices) && len(indices) + #2 == len(mp2) && (forall k int :: 0 <= k && k < len(indices) ==> 0 <= indices[k] && indices[k] < len(mp2))
+//@   loop 3 `for ii, i := range indices`
+//@     invariant [scan] 0 <= #3 && #3 <= len(indices) && (forall k int :: 0 <= k && k < len(indices) ==> 0 <= indices[k] && indices[k] < len(mp2))
+
+//@ func (p Polygon) Similar
+//@   prop C15
+//@   mode real
+//@   ensures [type_mismatch] typeof(g) != Polygon ==> !result
+//@   ensures [count] result ==> len(p) == len(g.(Polygon))
+//@   modifies nothing
+//@   loop 1 `for i := range p2`
+//@     invariant [fill] 0 <= #1 && #1 <= len(p2) && len(indices) == len(p2) && fresh(indices) && (forall k int :: 0 <= k && k < #1 ==> indices[k] == k)
+//@   loop 2 `for _, x := range p`
+//@     invariant [idx] 0 <= #2 && #2 <= len(p) && fresh(indices) && len(indices) + #2 == len(p2) && (forall k int :: 0 <= k && k < len(indices) ==> 0 <= indices[k] && indices[k] < len(p2))
+//@   loop 3 `for ii, i := range indices`
+//@     invariant [scan] 0 <= #3 && #3 <= len(indices) && (forall k int :: 0 <= k && k < len(indices) ==> 0 <= indices[k] && indices[k] < len(p2))
+
+//@ pred nonNilBounds(g Geom) = typeof(g) == *Bounds ==> g.(*Bounds) != nil
+//@ interface Geom.Similar
+//@   requires [recv] nonNilBounds(self) && nonNilBounds(g)
+//@   modifies nothing
+
+//@ func (gc GeometryCollection) Similar
+//@   prop C15
+//@   mode real
+//@   requires [members] (forall k int :: 0 <= k && k < len(gc) ==> typeof(gc[k]) != nil && nonNilBounds(gc[k])) && (typeof(g) == GeometryCollection ==> (forall k int :: 0 <= k && k < len(g.(GeometryCollection)) ==> nonNilBounds(g.(GeometryCollection)[k])))
+//@   ensures [type_mismatch] typeof(g) != GeometryCollection ==> !result
+//@   ensures [count] result ==> len(gc) == len(g.(GeometryCollection))
+//@   modifies nothing
+//@   loop 1 `for i := range gc2`
+//@     invariant [fill] 0 <= #1 && #1 <= len(gc2) && len(indices) == len(gc2) && fresh(indices) && (forall k int :: 0 <= k && k < #1 ==> indices[k] == k)
+//@   loop 2 `for _, x := range gc`
+//@     invariant [idx] 0 <= #2 && #2 <= len(gc) && fresh(indices) && len(indices) + #2 == len(gc2) && (forall k int :: 0 <= k && k < len(indices) ==> 0 <= indices[k] && indices[k] < len(gc2))
+//@   loop 3 `for ii, i := range indices`
+//@     invariant [scan] 0 <= #3 && #3 <= len(indices) && (forall k int :: 0 <= k && k < len(indices) ==> 0 <= indices[k] && indices[k] < len(gc2))
+
+//@ lemma ptClose_sym(p Point, q Point, e float64)
+//@   prop C15
+//@   mode real
+//@   ensures ptClose(p, q, e) <==> ptClose(q, p, e)
+//@ lemma ptsClose_sym(a []Point, b []Point, e float64)
+//@   prop C15
+//@   mode real
+//@   ensures ptsClose(a, b, e) <==> ptsClose(b, a, e)
+//@ lemma ptsClose_displaced(a []Point, b []Point, e float64, k int)
+//@   prop C15
+//@   mode real
+//@   requires 0 <= k && k < len(a) && len(a) == len(b) && (abs(a[k].X - b[k].X) >= e || abs(a[k].Y - b[k].Y) >= e)
+//@   ensures !ptsClose(a, b, e)
+//@ lemma ptsClose_perturbed(a []Point, b []Point, e float64)
+//@   prop C15
+//@   mode real
+//@   requires len(a) == len(b) && (forall k int :: 0 <= k && k < len(a) ==> abs(a[k].X - b[k].X) < e && abs(a[k].Y - b[k].Y) < e)
+//@   ensures ptsClose(a, b, e)
